@@ -869,7 +869,10 @@ pub fn run_c10(tier: Tier) -> i32 {
         vec![CK::W(1, true), CK::W(1, true)],
     ];
     let mk = |mc, calls, ev, faults: Vec<Fault>, cuts, dp| ScenCfg { prop: "C10".into(), max_conns: mc, max_calls: calls, max_events: ev, bursts: bursts.clone(), faults: faults.clone(), max_faults: if faults.is_empty() { 0 } else { 1 }, closes: false, cuts, short_reads: cuts, delay_polls: dp, write_fault_on_stream: true };
-    let plan = match tier {
+    // three streams open at once need three connections: a phase with streaming calls only
+    let streams_only: Vec<Vec<CK>> = vec![vec![CK::W(0, true)], vec![CK::W(1, false)], vec![CK::W(1, true)], vec![CK::W(0, true), CK::P]];
+    let mk3 = |ev| ScenCfg { prop: "C10".into(), max_conns: 3, max_calls: 4, max_events: ev, bursts: streams_only.clone(), faults: vec![], max_faults: 0, closes: false, cuts: false, short_reads: false, delay_polls: false, write_fault_on_stream: true };
+    let mut plan = match tier {
         Tier::Quick => vec![("2conns/4calls/8events", mk(2, 4, 8, vec![], false, false), 0), ("2conns/3calls/7events+dev", mk(2, 3, 7, vec![], true, true), 1), ("2conns/3calls/8events/unwritable", mk(2, 3, 8, vec![Fault::WriteError], false, false), 0)],
         Tier::Thorough => vec![
             ("3conns/5calls/8events", mk(3, 5, 8, vec![], false, false), 0),
@@ -878,6 +881,7 @@ pub fn run_c10(tier: Tier) -> i32 {
             ("2conns/4calls/7events/unwritable+delay", mk(2, 4, 7, vec![Fault::WriteError], false, true), 1),
         ],
     };
+    plan.push(("3conns/streaming-calls-only/8-9events", mk3(tier.pick(8, 9)), 0));
     let mut a = base_assumptions();
     a.push("stream items are produced by driver events once the service has opened the stream; a stream's last item carries continues=false when the stream then ends, continues=true when it stays open".into());
     run_plan(
